@@ -100,6 +100,10 @@ func c06SweepBases() (bases []c06In, target []int) {
 		add(c1, 1, m(c06Up(10, 1)), m(c06Up(20, 0)), m(c06Up(30, 0)))
 		add(c2, 0, m(c06Down, c06Up(10, 0)), m(c06Up(20, 0), c06Up(20, 0)))
 		add(c2, 1, m(c06Down, c06Up(10, 1)), m(c06Up(20, 0), c06Up(20, 0)), m(c06Up(30, 0), c06Up(30, 0)))
+		// both issuers hold a bundle (B's older, A's newer): every Load of the selection fails in turn - a
+		// failing Load must be an error, never a silent fall-back to the other issuer's older certificate
+		add(c2, 2, m(c06Down, c06Up(10, 0)), c06Hop{Op: "renew", Force: true, Orc: c06Orc(c06Up(20, 0), c06Down)},
+			m(c06Up(30, 0), c06Up(30, 0)), m(c06Up(40, 0), c06Up(40, 0)))
 	}
 	return bases, target
 }
